@@ -113,6 +113,25 @@ CHECKS['C13'] = dict(
          'generate_flat_panel_dataframe (value hashing in groupby), larger tables, more than 2 folds.',
     design='DESIGN.md 1/C13')
 
+CHECKS['C05'] = dict(
+    text='For logit, MEV with user terms, nested (partition, alone alternatives, legacy tuples, explicit scale), cross-nested '
+         '(fixed allocations, with/without scale; 4 alternatives with overlapping nests in thorough) and ordered '
+         'logit/probit with 2-5 categories, all availability patterns in the bound and ALL utilities, nest/scale '
+         'parameters and thresholds, z3 shows: probabilities sum to one, lie in [0,1], vanish when unavailable, are '
+         'invariant under a common shift of the utilities, and exp(log-model) = model.',
+    note='Trusted: engine contract (log-sum-exp kernel), ELN rewriting rules (sound on the positive domain), Phi as a '
+         'monotone function into (0,1). Outside: more than 4 alternatives, symbolic allocation parameters (normal form did '
+         'not finish), IEEE-754 overflow.',
+    design='DESIGN.md 1/C05')
+CHECKS['C06'] = dict(
+    text='For 16 (22 in thorough) structure/relation pairs, the availability patterns in the bound and ALL utilities and '
+         'nest parameters, z3 shows: nested(mu_m=1) = logit, cnl(alpha in {0,1}) = nested, scale 1 = unscaled (nested and '
+         'cross-nested), legacy tuples = nest objects, nest names do not matter, and (dG/dV_i)/exp(V_i) = exp(ln G_i) for '
+         'the nested-logit generating function (including alternatives outside every nest).',
+    note='Trusted: engine contract, ELN rewriting, symbolic differentiator D. Outside: more than 4 alternatives; nests with '
+         'no available alternative for the generating-function clause.',
+    design='DESIGN.md 1/C06')
+
 NOT_APPLICABLE = {}
 
 
